@@ -50,7 +50,39 @@ def same_value(parsed, original: SVar):
         ok = parsed.term.eq(original.term / original.unit.scale()) if isinstance(parsed.term, Rat) else parsed.term.eq(original.term / original.unit.scale())
         return ok, f'unit dropped; numbers {"preserved" if ok else "changed"}: {T.show(parsed.term)}'
     ok = parsed.term.eq(original.term)
+    if ok:
+        why = layout_mismatch(parsed, original)
+        if why:
+            return False, f'{T.show(parsed.term)} [{parsed.unit!r}] with {why}'
     return ok, f'{T.show(parsed.term)} [{parsed.unit!r}]'
+
+
+def layout_mismatch(parsed: SVar, original: SVar):
+    """None if element (i, j, ...) of the parsed array, addressed by dimension *name*, is the element the original holds there.
+    Only decided when an array was transposed somewhere on the way (an 'order' record exists) or the dims are listed differently."""
+    import itertools
+    ps, os_ = parsed.members.get('shape'), original.members.get('shape')
+    pd, od = parsed.members.get('dims'), original.members.get('dims')
+    po, oo = parsed.members.get('order'), original.members.get('order')
+    if ps is None or os_ is None or pd is None or od is None or len(ps) < 2:
+        return None
+    if po is None and oo is None and list(pd) == list(od):
+        return None
+    if sorted(pd) != sorted(od):
+        return f'dims {list(pd)} instead of {list(od)}'
+    if any(ps[pd.index(d)] != os_[od.index(d)] for d in od):
+        return f'sizes {dict(zip(pd, ps, strict=True))} instead of {dict(zip(od, os_, strict=True))}'
+
+    def elem(order, shape, dims, named):
+        flat = 0
+        for ax, d in enumerate(dims):
+            flat = flat * shape[ax] + named[d]
+        return flat if order is None else order[flat]
+    for idx in itertools.product(*[range(os_[od.index(d)]) for d in od]):
+        named = dict(zip(od, idx, strict=True))
+        if elem(po, ps, pd, named) != elem(oo, os_, od, named):
+            return f'element {named} read back is another element of the supplied array'
+    return None
 
 
 def run(tier: str) -> Run:
@@ -216,8 +248,9 @@ def _si(unit: str | None):
     return (NO_UNIT if unit is None else parse_unit(unit)).scale()
 
 
-def disk_ok(values, supplied: SVar, unit: str | None, what: str, probs: list, cast=None):
-    """`values` (decoded numbers of one field) hold `supplied` expressed in `unit`, element by element."""
+def disk_ok(values, supplied: SVar, unit: str | None, what: str, probs: list, cast=None, disk_dims=None):
+    """`values` (decoded numbers of one field) hold `supplied` expressed in `unit`, element by element.
+    disk_dims: the documented order of the dimensions on disk (row-major), when the model accepts them in any order."""
     want = supplied.term / _si(unit) if supplied.term is not None else None
     vals = list(values)
     inner = []
@@ -234,8 +267,19 @@ def disk_ok(values, supplied: SVar, unit: str | None, what: str, probs: list, ca
             probs.append(f'{what}: on disk {T.show(got) if got is not None else None}, supplied {T.show(want)} [{unit}]')
         return
     bases = {id(v.base) for v in inner if isinstance(v, Elem)}
-    if len(bases) != 1 or not all(isinstance(v, Elem) for v in inner) or [v.idx for v in inner] != list(range(len(inner))):
-        probs.append(f'{what}: on disk {inner[:4]!r}, expected the {len(inner)} supplied numbers in order')
+    expected_order = list(range(len(inner)))
+    sdims, sshape = supplied.members.get('dims'), supplied.members.get('shape')
+    if disk_dims is not None and sdims is not None and sshape is not None and sorted(sdims) == sorted(disk_dims) and list(sdims) != list(disk_dims):
+        import itertools
+        expected_order = []
+        for idx in itertools.product(*[range(sshape[list(sdims).index(d)]) for d in disk_dims]):
+            named = dict(zip(disk_dims, idx, strict=True))
+            flat = 0
+            for ax, d in enumerate(sdims):
+                flat = flat * sshape[ax] + named[d]
+            expected_order.append(flat)
+    if len(bases) != 1 or not all(isinstance(v, Elem) for v in inner) or [v.idx for v in inner] != expected_order:
+        probs.append(f'{what}: on disk {inner[:4]!r}, expected the {len(inner)} supplied numbers in the documented order {expected_order[:4]}...')
         return
     base = inner[0].base
     n = 1
@@ -316,9 +360,9 @@ def af_rules(run, repo, tier):
         r3.ok('configuration')
 
     # ---- metadata: two runs, all builder calls, both byte orders ---------------------------------------------------
-    for bo, n_runs, indirect in (('little', 1, False), ('big', 3, False), ('little', 2, True)):
-        wr = build(repo, ('P', 'I', 'S', 'D', 'T'), bo, 4, 3, n_runs, 'memory', 'the title', indirect=indirect)
-        cfg = f'byteorder={bo} runs={n_runs} mode={"indirect" if indirect else "direct"}'
+    for bo, n_runs, indirect in (('little', 1, False), ('big', 3, False), ('little', 2, True), ('little', 1, 'transposed')):
+        wr = build(repo, ('P', 'I', 'S', 'D', 'T'), bo, 4, 3, n_runs, 'memory', 'the title', indirect=bool(indirect), transposed=indirect == 'transposed')
+        cfg = f'byteorder={bo} runs={n_runs} mode={("indirect, en supplied as (energy_transfer, detector)" if indirect == "transposed" else "indirect") if indirect else "direct"}'
         if wr.outcome[0] != 'return':
             r5.fail(f'builder [{cfg}]', loc(repo.func(BUILD, 'SqwBuilder.create')), {'outcome': wr.outcome}, key='builder')
             continue
@@ -368,7 +412,7 @@ def _decoded_content_rules(dec, sup, n_runs, cfg, repo, r4, r5):
                     or sqwfmt.scalar(rec['angular_is_degree']) is not False:
                 probs.append(f'run {k}: file name / mode / angle flag')
             disk_ok(rec['efix']['data'], a['efix'], 'meV', f'run {k} efix', probs)
-            disk_ok(rec['en']['data'], a['en'], 'meV', f'run {k} en', probs)
+            disk_ok(rec['en']['data'], a['en'], 'meV', f'run {k} en', probs, disk_dims=('detector', 'energy_transfer') if len(a['en'].members.get('shape', ())) == 2 else None)
             for ang in ('psi', 'omega', 'dpsi', 'gl', 'gs'):
                 disk_ok(rec[ang]['data'], a[ang], 'rad', f'run {k} {ang}', probs)
             for vec in ('u', 'v'):
